@@ -233,6 +233,19 @@ def main(tier):
         cases.append(rel.case("sh%d" % k, text))
         casecases["sh%d" % k] = (text, "http GET /zm/{zy}", ["zy"], "http GET /zm/{zy}/{zz}", ["zy", "zz"])
         casecases["sh%db" % k] = (text, "http PUT /zm/{zy}/{zz}/more", ["zy", "zz"], "http GET /zm/{zy}", ["zy"])
+    # Path bodies of every form in ONE project, in both orders: by reference (direct, through an alias), inline, inline
+    # with an inherited property, by reference to a type that inherits
+    tdefs = 'TYPE @zb\n{\n  "y": 1\n}\nTYPE @zp\n{\n  "w": 1\n}\nTYPE @zal\n  @zp\nTYPE @zinh\n{ // {allOf: "@zb"}\n  "v": 1\n}\n'
+    ublocks = [('URL /q1/{w}\n  Path\n    @zp\n  GET\n    200 any\n', "http GET /q1/{w}", ["w"]),
+               ('URL /q2/{w}\n  Path\n    @zal\n  GET\n    200 any\n', "http GET /q2/{w}", ["w"]),
+               ('URL /r/{y}/{z}\n  Path\n  { // {allOf: "@zb"}\n    "z": 1\n  }\n  POST\n    200 any\n', "http POST /r/{y}/{z}", ["y", "z"]),
+               ('URL /s/{y}/{v}\n  Path\n    @zinh\n  PUT\n    200 any\n', "http PUT /s/{y}/{v}", ["y", "v"]),
+               ('URL /t/{k}\n  Path\n  {\n    "k": 1\n  }\n  DELETE\n    200 any\n', "http DELETE /t/{k}", ["k"])]
+    import itertools
+    for k, (x, y) in enumerate(itertools.permutations(range(len(ublocks)), 2)):
+        text = "JSIGHT 0.3\n" + (tdefs if k % 2 else "") + ublocks[x][0] + ublocks[y][0] + ("" if k % 2 else tdefs)
+        cases.append(rel.case("mx%d" % k, text))
+        casecases["mx%d" % k] = (text, ublocks[x][1], ublocks[x][2], ublocks[y][1], ublocks[y][2])
     # one file with a method and its Path directive included under two (three) URL blocks: each inclusion binds the
     # parameter of ITS path
     item = '  GET\n    Path\n    {\n      "id": 1\n    }\n    200 any\n'
